@@ -8,6 +8,7 @@ import (
 	"strings"
 	"time"
 
+	sasl "github.com/emersion/go-sasl"
 	"github.com/fluffle/goirc/client"
 	"github.com/fluffle/goirc/logging"
 
@@ -196,6 +197,9 @@ type ClientOpts struct {
 	Flood             bool
 	PingFreq          time.Duration
 	Timeout           time.Duration // 0: library default
+	Sasl              sasl.Client
+	CapNeg            bool
+	Caps              []string
 	Track             bool
 	CtxDialer         bool
 	Server            string
@@ -227,6 +231,9 @@ func NewClient(o ClientOpts) *client.Conn {
 	if o.SplitLen != 0 {
 		cfg.SplitLen = o.SplitLen
 	}
+	cfg.Sasl = o.Sasl
+	cfg.EnableCapabilityNegotiation = o.CapNeg
+	cfg.Capabilites = o.Caps
 	if o.Recover != nil {
 		cfg.Recover = o.Recover
 	}
